@@ -1,5 +1,6 @@
 import NucleoVerif.Props.C07_AtomNarrows
 import NucleoVerif.Props.C07_Append
+import NucleoVerif.Props.C15_Multi
 /-! # C07 (companion file) — the `Update` shortcut is sound: end to end for ASCII pattern text
 
 `MultiPattern::reparse` reports `Update` for an appended text when `can_append_to` admits the column's last atom (and the
@@ -725,5 +726,68 @@ example :
     (parsePattern (fun c => c.map (fun _ => 1)) ([102, 111, 111] ++ [66, 36]) .smart .smart).map (fun a => (a.kind, a.needle, a.ignoreCase)) =
       [(.postfix, [102, 111, 111, 66], false)] := by
   decide
+
+/-! ## multi-column patterns -/
+
+/-- column-wise narrowing lifts to `MultiPattern::score` -/
+theorem multiEval_narrows (cfg : Cfg) (ext : Ext) : ∀ (ps qs : List (List Atom)) (hs : List (Rep × List Nat)), ps.length = qs.length →
+    (∀ (k : Nat) (p q : List Atom) (h : Rep × List Nat), ps[k]? = some p → qs[k]? = some q → hs[k]? = some h →
+      (patternEval p cfg ext h.1 h.2).isSome = true → (patternEval q cfg ext h.1 h.2).isSome = true) →
+    (multiEval cfg ext ps hs).isSome = true → (multiEval cfg ext qs hs).isSome = true := by
+  intro ps
+  induction ps with
+  | nil =>
+    intro qs hs hl _ _
+    cases qs with
+    | nil => simp [multiEval]
+    | cons _ _ => cases hl
+  | cons p ps ih =>
+    intro qs hs hl hcol hm
+    cases qs with
+    | nil => cases hl
+    | cons q qs =>
+      cases hs with
+      | nil => simp [multiEval]
+      | cons h hs =>
+        simp only [multiEval] at hm ⊢
+        cases hp : patternEval p cfg ext h.1 h.2 with
+        | none => rw [hp] at hm; cases hm
+        | some r =>
+          rw [hp] at hm
+          have hq := hcol 0 p q h rfl rfl rfl (by rw [hp]; rfl)
+          cases hq' : patternEval q cfg ext h.1 h.2 with
+          | none => rw [hq'] at hq; cases hq
+          | some r' =>
+            simp only [Option.isSome_map] at hm ⊢
+            apply ih qs hs (by simpa using hl) _ hm
+            intro k p' q' h' h1 h2 h3
+            exact hcol (k + 1) p' q' h' (by simpa using h1) (by simpa using h2) (by simpa using h3)
+
+/-- **the `Update` shortcut on a multi-column pattern**: column `c`'s ASCII text `t` is continued to `t ++ s`, `reparse` answers
+    `Update` for it, the other columns keep their patterns: every item the new multi-column pattern matches the old one matched -/
+theorem C07_multi_update_narrows_ascii (seg : Seg) (ps : List (List Atom)) (c : Nat) (t s : List Nat)
+    (case : CaseMatching) (norm : Normalization) (hasc : ∀ x ∈ t ++ s, x < 128) (old : PStatus)
+    (hc : ps[c]? = some (parsePattern seg t case norm))
+    (hupd : reparseStatus old (parsePattern seg t case norm) (parsePattern seg (t ++ s) case norm) true = .update)
+    (cfg : Cfg) (ext : Ext) (hb : 8 ≤ maxBonus cfg) (hs : List (Rep × List Nat))
+    (hh : ∀ h ∈ hs, h.1 = .ascii → ∀ x ∈ h.2, x < 128)
+    (hm : (multiEval cfg ext (ps.set c (parsePattern seg (t ++ s) case norm)) hs).isSome = true) :
+    (multiEval cfg ext ps hs).isSome = true := by
+  apply multiEval_narrows cfg ext (ps.set c (parsePattern seg (t ++ s) case norm)) ps hs (by simp) _ hm
+  intro k p q h h1 h2 h3 hp
+  by_cases hk : k = c
+  · subst hk
+    rw [hc] at h2
+    have hlt : k < ps.length := by
+      rcases Nat.lt_or_ge k ps.length with h | h
+      · exact h
+      · rw [List.getElem?_eq_none h] at hc; cases hc
+    rw [List.getElem?_set_self hlt] at h1
+    injection h1 with h1; injection h2 with h2
+    subst h1; subst h2
+    exact C07_update_narrows_ascii seg t s case norm hasc old hupd cfg ext h.1 h.2 (hh h (List.mem_of_getElem? h3)) hb hp
+  · rw [List.getElem?_set_ne (fun e => hk e.symm)] at h1
+    rw [h1] at h2; injection h2 with h2; subst h2
+    exact hp
 
 end NucleoVerif
